@@ -232,7 +232,7 @@ pub fn run(run: &mut Run, args: &Args) {
             // the Lean judge is asked only when the implementation-level oracle saw no difference
             // (a case that already failed is reported under its own signature)
             if rt::same_outcome(&ob, &oa, q.ordered, SchemaLevel::TypesExact).is_ok() {
-                judge_case(run, &plan, &after, &[&ds, &ds2], q.tags.len() >= 2);
+                judge_case(run, &plan, &after, &[&ds], q.tags.len() >= 2);
             } else {
                 run.count("judge_skipped_oracle_failed");
             }
